@@ -599,7 +599,7 @@ def show(e, depth=0):
 
 def mentions(e, pred):
     """does expression e contain a sub-expression satisfying pred"""
-    if not isinstance(e, tuple):
+    if not isinstance(e, tuple) or not e:
         return False
     if pred(e):
         return True
